@@ -333,6 +333,7 @@ def place_twin(twin, state):
 
 class OopStateEngine(EngineBase):
     name = 'oopstate'
+    fault_note = 'the property has no fault clause: no fault is injected; the explored dimension is the history of legal state changes (counts under ops)'
     source_files = ['TidalPy/tides/methods/base.py', 'TidalPy/tides/methods/global_approx.py', 'TidalPy/tides/methods/layered.py',
                     'TidalPy/structures/world_types/basic.py', 'TidalPy/structures/world_types/tidal.py',
                     'TidalPy/structures/world_types/layered.py', 'TidalPy/structures/orbit/base.py',
